@@ -27,6 +27,7 @@ pub fn def() -> CheckDef {
         cpu_limit_s: 120,
         fault_kinds: "F-FC field corruption (enumerated), F-BF bit flips, F-TR truncate/extend, F-LW lost write, F-MW misdirected write, F-CR/F-WT mid-operation crash images",
         count_subruns: true,
+        expect_probes: &["damaged_images_accepted_by_open"],
     }
 }
 
